@@ -41,7 +41,7 @@ STREAM = {
     "C05": ("c05", ["--cases", 400, "--cost", 500000], ["--cases", 8000, "--cost", 20000000]),
     "C15": ("c15", ["--cases", 600, "--cost", 1400000, "--bigshare", 300], ["--cases", 15000, "--cost", 45000000, "--bigshare", 20]),
     "C14": ("c14", ["--cases", 300, "--cost", 300000], ["--cases", 8000, "--cost", 15000000]),
-    "C13": ("c13", ["--cases", 500, "--cost", 1200000, "--frames", 2], ["--cases", 12000, "--cost", 40000000, "--bigshare", 10]),
+    "C13": ("c13", ["--cases", 500, "--cost", 1600000, "--frames", 2], ["--cases", 12000, "--cost", 40000000, "--bigshare", 10]),
 }
 
 
